@@ -70,6 +70,7 @@ pub fn compile(case: &Value) -> Value {
         files: &files,
         calls: Vec::new(),
         real_compile: true,
+        resolve_only: case["resolve_only"].as_bool().unwrap_or(false),
     };
     let res = crate::guarded(|| oal_compiler::module::load(&mut loader, &main));
     let mut out = json!({"outcome": "ok"});
@@ -100,6 +101,9 @@ pub fn compile(case: &Value) -> Value {
             );
         }
         out["modules"] = Value::Object(ms);
+    }
+    if case["resolve_only"].as_bool().unwrap_or(false) {
+        return out;
     }
     if want("events") {
         oal_compiler::eval::verif::start();
